@@ -14,8 +14,19 @@ from .types import Chunks2d
 
 
 def _find_common_type(array_types, scalar_types):
-    # TODO: don't use find_common_type as it's being removed from numpy
-    return np.find_common_type(array_types, scalar_types)
+    # ``np.find_common_type`` was removed in numpy 2: same promotion rule using
+    # ``np.result_type``, scalars only upgrade the result when they are of a
+    # "higher" kind (bool < unsigned < int < float < complex).
+    array_type = np.result_type(*array_types)
+    if len(scalar_types) == 0:
+        return array_type
+    scalar_type = np.result_type(*scalar_types)
+    kinds = "buifc"
+    if array_type.kind not in kinds or scalar_type.kind not in kinds:
+        return np.result_type(array_type, scalar_type)
+    if kinds.index(scalar_type.kind) > kinds.index(array_type.kind):
+        return np.result_type(array_type, scalar_type)
+    return array_type
 
 
 class BlockAssembler:
